@@ -46,13 +46,10 @@ func linkKeyIO(seed string) iface.IO {
 		panic(err)
 	}
 	io := base.ApplyOptions(&cbor.Options{LinkKey: sk})
-	// the caller's key buffer is the caller's: it is reused for the other key of the checks (a scratch buffer read
+	// the caller's key buffer is the caller's: it is reused afterwards (a scratch buffer read
 	// from a file, a buffer wiped after use); the codec keeps the key it was given, not the buffer
-	otherSeed := "K1"
-	if seed == "K1" {
-		otherSeed = "K2"
-	}
-	other := sha256.Sum256([]byte(otherSeed))
+	// (the same bytes whatever the key was: a codec that kept the buffer would make all keys one key)
+	other := sha256.Sum256([]byte("the buffer is reused"))
 	copy(buf, other[:])
 	return io
 }
